@@ -22,6 +22,7 @@ CONSTANTS
   InitDescs <- GenInit
   Descs <- GenDescs
   GIdents <- GIdentsM
+  GActions = {"update", "reply", "changed", "error_update", "error_read"}
   GLevels <- GLevelsT
   EmitOneIn = 1
   MaxCbs = 2
